@@ -143,15 +143,26 @@ theorem lastNonce_monotone (s : State) (op : Op) (hk : Op.keepsLastNonce op = tr
     repeat' split
     all_goals exact hv
 
-/-- PARTIAL (explicit hypothesis: no operation of the history deletes a per-oracle last nonce, i.e. there is no
-`UnbondedOracle` in it — or the tree is one where `UnbondedOracle` keeps the key).  Then in every reachable state no
-vote list has a duplicate, an oracle has voted for at most one claim hash per nonce, and every vote sits at a nonce not
-above the oracle's stored last nonce. -/
-theorem oracle_vote_once_partial (p : Params) (ops : List Op) (hops : ∀ op ∈ ops, Op.keepsLastNonce op = true) :
+/-- the hypothesis of the partial theorems: the tree keeps the per-oracle last nonce on unbond, or the history contains
+no unbond → re-bond of one oracle address (`noRebond`: no `BondedOracle` targets an oracle whose key an earlier
+`UnbondedOracle` deleted) -/
+def NoRebond (p : Params) (ops : List Op) : Prop := unbondDeletesLastNonce = false ∨ noRebond (init p) ops = true
+
+theorem vinv_reach (p : Params) (ops : List Op) (hops : NoRebond p ops) : VInv (reach p ops) := by
+  rcases hops with h | h
+  · exact vinv_run _ ops (noRebond_of_kept h _ ops rfl) (vinv_init p)
+  · exact vinv_run _ ops h (vinv_init p)
+
+/-- PARTIAL (explicit hypothesis `NoRebond`: no oracle bonds again after `UnbondedOracle` deleted its last event nonce).
+Then in every reachable state no vote list has a duplicate, an oracle has voted for at most one claim hash per nonce,
+and every vote sits at a nonce not above the voter's stored last nonce (or the voter has unbonded for good).  All other
+interleavings — slashing, governance removal, unbonding, add-delegate, competing hashes, any vote order — are covered. -/
+theorem oracle_vote_once_partial (p : Params) (ops : List Op) (hops : NoRebond p ops) :
     (∀ a ∈ (reach p ops).atts, a.votes.Nodup) ∧
     (∀ a ∈ (reach p ops).atts, ∀ b ∈ (reach p ops).atts, ∀ o, a.nonce = b.nonce → o ∈ a.votes → o ∈ b.votes → a.hash = b.hash) ∧
-    (∀ a ∈ (reach p ops).atts, ∀ o ∈ a.votes, ∃ v, (reach p ops).lastNonce.get o = some v ∧ a.nonce ≤ v) := by
-  have := vinv_run _ ops hops (vinv_init p)
+    (∀ a ∈ (reach p ops).atts, ∀ o ∈ a.votes,
+      (∃ v, (reach p ops).lastNonce.get o = some v ∧ a.nonce ≤ v) ∨ o ∈ (reach p ops).retired) := by
+  have := vinv_reach p ops hops
   exact ⟨this.v2.1, this.v2.2, this.v1⟩
 
 /-- the history of DESIGN §6-H: oracle 1 votes for nonce 1, is removed by governance, unbonds (its last nonce is deleted),
@@ -236,7 +247,8 @@ def demo : List Op :=
 example : (reach witnessParams demo).lastObserved = 2 := by decide
 example : (reach witnessParams demo).observedLog = [(1, 0), (2, 0)] := by decide
 example : (reach witnessParams demo).executedLog = [1] := by decide
-example : ∀ op ∈ demo, Op.keepsLastNonce op = true := by decide
+example : NoRebond witnessParams demo := Or.inr (by decide)
+example : ¬ noRebond (init witnessParams) rebondWitness = true := by decide
 example : (reach witnessParams demo).atts.map (fun a => (a.nonce, a.hash, a.votes, a.observed)) =
     [(1, 0, [1, 3], true), (1, 1, [2], false), (2, 0, [1, 2, 3], true)] := by decide
 
